@@ -299,6 +299,8 @@ class HandoverPolicy:
         if self.phase == 'y':
             if tid != self.y:
                 return self.y if s.runnable(self.y) else tid
+            if (s.last_where or '').endswith('+s'):
+                return tid          # in front of a store: not a line end
             if self.prev_where == self.target:
                 self.phase = 'rest'
                 self.hit = True
@@ -438,6 +440,27 @@ class Sim:
         opcode = self.opcode
         point = self.point
 
+        if opcode == 'store':
+            # line events plus one more pre-emption point right in front of
+            # every instruction that stores into (or deletes from) an
+            # attribute or a container: splits the read from the write of a
+            # read-modify-write written on one source line
+            def local(frame, event, arg):
+                if event == 'line':
+                    point(tid, frame)
+                elif event == 'opcode':
+                    if frame.f_lasti in store_offsets(frame.f_code):
+                        point(tid, frame, None, '+s')
+                return local
+
+            def glob(frame, event, arg):
+                if event == 'call' and self._traced(frame.f_code):
+                    if store_offsets(frame.f_code):
+                        frame.f_trace_opcodes = True
+                    return local
+                return None
+            return glob
+
         def local(frame, event, arg):
             if event == 'line':
                 if not opcode:
@@ -455,13 +478,14 @@ class Sim:
         return glob
 
     # -- pre-emption points ----------------------------------------------
-    def point(self, tid, frame, label=None):
+    def point(self, tid, frame, label=None, suffix=''):
         if self.abort:
             raise SimAbort(self.abort)
         self.last_label = label if frame is None else None
         if self.want_where:
-            self.last_where = None if frame is None else '%s:%d' % (
-                os.path.basename(frame.f_code.co_filename), frame.f_lineno)
+            self.last_where = None if frame is None else '%s:%d%s' % (
+                os.path.basename(frame.f_code.co_filename), frame.f_lineno,
+                suffix)
         self.steps += 1
         if self.steps > self.cap:
             self.abort = 'no_progress'
@@ -474,8 +498,9 @@ class Sim:
             self._stint += 1
             self.th[tid].points += 1
             return
-        where = label if frame is None else '%s:%d' % (
-            os.path.basename(frame.f_code.co_filename), frame.f_lineno)
+        where = label if frame is None else '%s:%d%s' % (
+            os.path.basename(frame.f_code.co_filename), frame.f_lineno,
+            suffix)
         self._switch(tid, nxt, 'switch', where)
         if self.abort:
             raise SimAbort(self.abort)
@@ -608,6 +633,22 @@ class Sim:
 
 
 _STORE_LINES = {}
+_STORE_OFFS = {}
+_STORES = ('STORE_ATTR', 'STORE_SUBSCR', 'DELETE_ATTR', 'DELETE_SUBSCR')
+
+
+def store_offsets(code):
+    """byte offsets of the instructions of this code object that store into
+    an attribute or a container (none for __init__ bodies)"""
+    offs = _STORE_OFFS.get(code)
+    if offs is None:
+        import dis
+        offs = frozenset() if code.co_name == '__init__' else frozenset(
+            ins.offset for ins in dis.get_instructions(code)
+            if ins.opname in _STORES)
+        _STORE_OFFS[code] = offs
+    return offs
+
 
 
 def store_line(code, line):
@@ -655,18 +696,30 @@ def solo_profile(fn, opcode=False, writes=None):
         return ok
 
     def local(frame, event, arg):
-        if event == ('opcode' if opcode else 'line'):
-            w = '%s:%d' % (os.path.basename(
-                frame.f_code.co_filename), frame.f_lineno)
-            points.append(w)
-            if writes is not None and w not in writes and store_line(
-                    frame.f_code, frame.f_lineno):
-                writes.add(w)
+        if opcode == 'store':
+            if event == 'opcode':
+                if frame.f_lasti in store_offsets(frame.f_code):
+                    points.append('%s:%d+s' % (os.path.basename(
+                        frame.f_code.co_filename), frame.f_lineno))
+                return local
+            if event != 'line':
+                return local
+        elif event != ('opcode' if opcode else 'line'):
+            return local
+        w = '%s:%d' % (os.path.basename(
+            frame.f_code.co_filename), frame.f_lineno)
+        points.append(w)
+        if writes is not None and w not in writes and store_line(
+                frame.f_code, frame.f_lineno):
+            writes.add(w)
         return local
 
     def glob(frame, event, arg):
         if event == 'call' and traced(frame.f_code):
-            if opcode:
+            if opcode == 'store':
+                if store_offsets(frame.f_code):
+                    frame.f_trace_opcodes = True
+            elif opcode:
                 frame.f_trace_opcodes = True
             return local
         return None
